@@ -109,10 +109,13 @@ def park1(ctx: Ctx, chk) -> None:
             t = tests[0]
             te = t.ast
             pol = sb.branch_polarity(g, t, snode)
-            # `if not (A and B and C): write / else: park` parks under A and B and C
-            if pol is False and isinstance(te, ast.UnaryOp) and isinstance(te.op, ast.Not):
-                te, pol = te.operand, True
-            terms = te.values if isinstance(te, ast.BoolOp) and isinstance(te.op, ast.And) else [te]
+            # the conjunction that holds on the parking branch, whatever the spelling: `if A and B and C: park`,
+            # `if not (A and B and C): write / else: park`, `if not A or not B or not C: write; return / park`
+            terms = _conjunction(te, pol)
+            if terms is None:
+                terms, pol = [te], pol
+            else:
+                pol = True
             got = sorted(cn.canon(x) for x in terms)
             node_c = "gateway.nodes.get(In.node_id)"
             want_sets = [
@@ -136,6 +139,39 @@ def park1(ctx: Ctx, chk) -> None:
             else:
                 chk.refute(rule, k, f"`{norm(w)}` does not write exactly the encoded line received from Gateway.send", ctx.loc(f, w))
     chk.floor(rule, "outgoing set handlers", len(done), 1)
+
+
+def _conjunction(te: ast.expr, pol: bool):
+    """The terms t1..tn with (te evaluates to pol) == (t1 and ... and tn), or None when it is not a conjunction."""
+    if pol:
+        if isinstance(te, ast.BoolOp) and isinstance(te.op, ast.And):
+            out = []
+            for v in te.values:
+                sub = _conjunction(v, True)
+                if sub is None:
+                    return None
+                out += sub
+            return out
+        if isinstance(te, ast.UnaryOp) and isinstance(te.op, ast.Not):
+            return _conjunction(te.operand, False)
+        if isinstance(te, ast.BoolOp):
+            return None
+        return [te]
+    # te is false
+    if isinstance(te, ast.UnaryOp) and isinstance(te.op, ast.Not):
+        return _conjunction(te.operand, True)
+    if isinstance(te, ast.BoolOp) and isinstance(te.op, ast.Or):
+        out = []
+        for v in te.values:
+            sub = _conjunction(v, False)
+            if sub is None:
+                return None
+            out += sub
+        return out
+    if isinstance(te, ast.Compare) and len(te.ops) == 1 and isinstance(te.ops[0], (ast.Is, ast.IsNot)) and isinstance(te.comparators[0], ast.Constant) and te.comparators[0].value is None:
+        flipped = ast.IsNot() if isinstance(te.ops[0], ast.Is) else ast.Is()
+        return [ast.copy_location(ast.Compare(left=te.left, ops=[flipped], comparators=te.comparators), te)]
+    return None
 
 
 def _paths(g: CFG, limit: int = 200):
